@@ -86,6 +86,12 @@ pub fn gen_map(r: &mut Rng, big: bool) -> Map {
             cy += r.range(-80, 80);
             path += &format!("|{}:{}", cx, cy);
         }
+        // osu-stable compatibility: a path whose last anchor is written twice is never extended,
+        // whatever length the line states
+        let dup_end = r.chance(1, 5);
+        if dup_end {
+            path += &format!("|{}:{}", cx, cy);
+        }
         let dur = r.range(50, 2500);
         objects.push(Obj {
             x,
@@ -96,7 +102,7 @@ pub fn gen_map(r: &mut Rng, big: bool) -> Map {
             sound: *r.pick(&[0u8, 2, 4, 8, 10]),
             path,
             repeats: r.range(1, 3) as i32,
-            len: if r.chance(1, 5) { "0".into() } else { format!("{}", r.range(20, 400)) },
+            len: if r.chance(1, 5) { "0".into() } else if dup_end { format!("{}", r.range(300, 900)) } else { format!("{}", r.range(20, 400)) },
             end: t + dur,
             extras: r.pick(&["0:0:0:0:", "1:2:0:0:", "0:0:2:40:", "2:0:0:0:", "0:0:0:0:x.wav"]).to_string(),
         });
